@@ -87,9 +87,17 @@ def sys_harmonic(arg):
     atoms.set_masses([1.0] * natoms)
     atoms.calc = Wells(k, centers)
     lab = np.arange(natoms)
-    if variant == "hamiltonian":
+    if variant in ("hamiltonian", "hamiltonian_rebuilt"):
         mc = HamiltonianCanonical(atoms, temperature=T, max_cycles=1, seed=seed)
         mc.add_move(HamiltonianDisplacementMove(operation=Verlet(dt=3.0, max_steps=6)))
+        if variant == "hamiltonian_rebuilt":
+            # the long history contains a stop: after a quarter of the run the simulation is rebuilt from its dictionary
+            # (every component comes back by its registered name) and continued with a fresh calculator
+            from ase.io.jsonio import decode, encode
+
+            mc.run(n // 4)
+            mc = HamiltonianCanonical.from_dict(decode(encode(mc.to_dict())))
+            mc.atoms.calc = Wells(k, centers)
     else:
         mc = Canonical(atoms, temperature=T, max_cycles=natoms, seed=seed)
         if variant == "ball":
@@ -176,7 +184,15 @@ def sys_grand(arg):
     atoms = Atoms(cell=cell, pbc=True)
     atoms.calc = Zero()
     mc = GrandCanonical(atoms, exchange_atoms=tmpl, temperature=T, chemical_potential=mu, number_of_exchange_particles=0, max_cycles=1, seed=seed)
-    mc.add_move(ExchangeMove(np.array([], dtype=int), TranslationRotation() if molecular else Translation()))
+    if variant == "atomic_composite":
+        # a composite proposal: one trial displaces a particle (if there is one) and exchanges one
+        from quansino.mc.criteria import GrandCanonicalCriteria
+        from quansino.moves.displacement import DisplacementMove
+        from quansino.operations.displacement import Ball
+
+        mc.add_move(DisplacementMove(np.array([], dtype=int), Ball(0.5)) + ExchangeMove(np.array([], dtype=int), Translation()), criteria=GrandCanonicalCriteria())
+    else:
+        mc.add_move(ExchangeMove(np.array([], dtype=int), TranslationRotation() if molecular else Translation()))
     if variant == "atomic_accessible_rebuilt":
         mc.accessible_volume = V
         # ... and the long history contains a stop: the simulation is rebuilt from its dictionary and continued
@@ -254,7 +270,7 @@ def run(tier: str) -> int:
 
     def jobs_for(scale=1, salt=0):
         jobs = []
-        for v in ("ball", "box", "sphere", "composite_op", "move_x2", "hamiltonian"):
+        for v in ("ball", "box", "sphere", "composite_op", "move_x2", "hamiltonian", "hamiltonian_rebuilt"):
             for na in ((3,) if tier == "quick" and v not in ("ball",) else (1, 3)):
                 for s in range(nseeds):
                     jobs.append(("harmonic", (f"harmonic:{v}:N={na}", base + 17 * s + salt + 1, n * scale, v, na)))
@@ -266,7 +282,7 @@ def run(tier: str) -> int:
             for na in ((1, 4) if v == "isobaric" else (2,)):
                 for s in range(nseeds):
                     jobs.append(("isobaric", (f"{v}:N={na}", base + 17 * s + salt + 3, 2 * n * scale, v, na)))
-        for v in ("atomic", "molecular", "atomic_Tswitch", "atomic_accessible_rebuilt"):
+        for v in ("atomic", "molecular", "atomic_Tswitch", "atomic_accessible_rebuilt", "atomic_composite"):
             for nb in ((1.5, 4.0) if v in ("atomic", "molecular") else (4.0,)):
                 for s in range(nseeds):
                     jobs.append(("grand", (f"grand:{v}:Nbar={nb}", base + 17 * s + salt + 4, 3 * n * scale, v, nb)))
